@@ -19,21 +19,25 @@ RULE = ("exhaustive small scope: 0-3 areas over a base/size grid (adjacent, over
         "least one area and one register; distinct = distinct operation text.")
 EXHAUSTIVE = {"quick": False, "thorough": True}
 ASSUMPTIONS = [
-    "model and address-arithmetic assumptions as for C01; at most AREA_HANDLE_MAX / REGISTER_HANDLE_MAX - 1 areas / entries (the too-many results are not reachable with finite lists)",
+    "model and address-arithmetic assumptions as for C01; every area has `size` atoms of storage (hypothesis `Sized` of the theorems); at most AREA_HANDLE_MAX / REGISTER_HANDLE_MAX - 1 areas / entries (the too-many results are not reachable with finite lists)",
     "where the statement leaves the precedence between rule order and index order open, the spec follows the single ascending pass of the clean code "
     "(per register: inside one area before default acceptable)",
 ]
 TRUSTED = ["correspondence harness harness/h_regtable.c + tools/lib/vf.py"]
 DESIGN_REF = "DESIGN.md section 8, C04"
-TECHNIQUE = "Lean 4 proofs over the register-table model (initialisation fails exactly on ill-formed descriptions with the first violated rule; uninitialised guard of every operation; post-state) + enumerated table descriptions in the differential correspondence"
-LEVEL_TEXT = ("Machine-checked proof over the Lean model of register_init: it fails with no-areas / area order / area overlap / entry order / entry overlap exactly when the "
-              "respective rule is the first one violated (with the index of the offending item), leaves the table uninitialised on every failure, and every typed, block, "
-              "iteration and sanitise operation then answers 'uninitialised'.  Tied to the C code by enumerating area layouts x register layouts x defaults x area kinds.")
+TECHNIQUE = "Lean 4 proofs over the register-table model (loop invariant of the default-loading loop: initialisation succeeds exactly on the well-formed descriptions, otherwise names the first violated rule; uninitialised guard of every operation; post-state incl. per-area register runs) + enumerated table descriptions in the differential correspondence"
+LEVEL_TEXT = ("Machine-checked proof over the Lean model of register_init, for every description: init_success_iff - it succeeds exactly when there is at least one area, "
+              "areas and registers are ascending and non-overlapping, every register lies wholly inside one area and every default that gets loaded is acceptable; "
+              "init_first_error - otherwise code and index are those of the first violated rule; init_outcome / uninitialised_refuses - a failure leaves the table "
+              "uninitialised and every typed, block, iteration and sanitise operation says so; init_post - after success registers are linked to their area, registers of "
+              "areas that load defaults read back their default, every other word of memory-backed areas is zero; init_records - each area records exactly the contiguous "
+              "run of registers located in it; init_good / init_then_history - the result is the state from which C05's history invariant starts.  Proof by a loop invariant "
+              "of the default-loading loop (Lemmas/RegInit).  Tied to the C code by enumerating area layouts x register layouts x defaults x area kinds.")
 LEVEL_NOTE = "Trusted: as C01."
 
 
 def theorem_for(d):
-    return "Ufw.Props.C04 (init_no_areas / init_order_rules / init_fail_uninit / uninit_guard)"
+    return "Ufw.Props.C04 (init_success_iff / init_first_error / init_post / init_records / uninitialised_refuses)"
 
 
 AREA_SETS = [
